@@ -219,7 +219,14 @@ def evaluate(ctx, stacks, files, aseed, cfgs, pairs="all", only=None, corpus=Non
                         # which C07 requires to load. Not a fault; only the correspondence is checked.
                         kind = "widthswap-empty-array-valid-file"
                     corr.dist[f"alt/{role}/{cls}"] += 1
-                    report(cfg, inf, kind, [off, w], dat, iv, mv, extra={"role": role, "layer": layer, "class": cls})
+                    ex = {"role": role, "layer": layer, "class": cls}
+                    if iv == "T":
+                        # rejected alone, accepted at the head of a long seekable stream that continues with complete dumps
+                        # (for a width swap the continuation may legitimately complete the wider payload: not judged)
+                        iv = "E" if cls == "widthswap" else "F"
+                        ex["stream"] = "seekable; the altered dump is followed by complete dumps (>= 128 KiB)"
+                        corr.dist["alt/accepted-only-when-followed-by-dumps"] += 1
+                    report(cfg, inf, kind, [off, w], dat, iv, mv, extra=ex)
                 if len(corr.samples) < 6 and inf.depth >= 2:
                     corr.sample({"kind": "alts", "stack": inf.label, "first": [f"{off}:{w:08x} ({role} of {layer}, {cls})" for off, w, role, layer, cls in alts[:6]],
                                  "impl": "".join(x if len(x) == 1 else "!" for x in o)[:60], "model": m[:60], "cfg": cfg})
